@@ -98,9 +98,19 @@ def shards(tier, seed):
 
 def run_shard(shard, tier, seed):
     acc = Acc()
+    depth = _depth(tier)
     for kind, cid, ni in shard["cids"]:
-        check_case(kind, tuple((s, i) for s, i in cid), ni, _depth(tier), acc)
+        cid = tuple((s, i) for s, i in cid)
+        io.run_minimised((kind, cid, ni), lambda k, a: check_case(k[0], k[1], k[2], depth, a), _smaller, acc)
     return acc
+
+
+def _smaller(key):
+    kind, cid, ni = key
+    for j in range(len(cid)):
+        yield (kind, cid[:j] + cid[j + 1:], ni)
+    if ni:
+        yield (kind, cid, 0)
 
 
 def replay(case):
@@ -186,7 +196,11 @@ def check_case(kind, cid, ni, depth, acc):
         viol("read:malformed:" + io.exc_name(e), "re-read problem cannot be inspected: %s" % (e,))
         return
     acc.count("roundtrips")
-    res = bisim.compare(ps, spec_b, ren, depth=depth, plan_k=0, check_metric=False)
+    try:
+        res = bisim.compare(ps, spec_b, ren, depth=depth, plan_k=0, check_metric=False)
+    except Exception as e:  # the re-read problem contains something the spec language cannot express
+        viol("not-comparable:" + io.exc_name(e), "re-read problem cannot be interpreted by the reference: %s" % (e,))
+        return
     for k in ("states", "transitions", "nontrivial", "traces"):
         acc.count(k, res.c[k])
     for k, v in res.outcomes.items():
@@ -195,7 +209,11 @@ def check_case(kind, cid, ni, depth, acc):
         viol(sub, what, {"witness": wit})
     if not any(s in ("objects", "fluents", "init") for s, _w, _x in res.diffs):
         if ps.get("dactions") or ps.get("teffs") or ps.get("tgoals") or spec_b.get("dactions") or spec_b.get("teffs") or spec_b.get("tgoals"):
-            tdiffs, n_eval = io.temporal_compare(ps, spec_b, ren, res.pairs)
+            try:
+                tdiffs, n_eval = io.temporal_compare(ps, spec_b, ren, res.pairs)
+            except Exception as e:
+                viol("not-comparable:" + io.exc_name(e), "temporal part of the re-read problem cannot be interpreted by the reference: %s" % (e,))
+                return
             acc.count("temporal_evaluations", n_eval)
             for sub, what, wit in tdiffs:
                 viol(sub, what, {"witness": wit})
